@@ -13,11 +13,15 @@ CLAIMS = {}
 for f in sorted(glob.glob(os.path.join(V, 'harness', 'c[0-9][0-9].py'))):
     pid = os.path.basename(f)[:-3].upper()
     tree = ast.parse(open(f).read())
+    more = ''
+    for node in tree.body:
+        if isinstance(node, ast.Assign) and len(node.targets) == 1 and getattr(node.targets[0], 'id', None) == 'CLAIM_MORE':
+            more = ' ' + eval(compile(ast.Expression(node.value), f, 'eval'), {})
     for node in tree.body:
         if isinstance(node, ast.Assign) and len(node.targets) == 1 and getattr(node.targets[0], 'id', None) == 'CLAIM':
             c = eval(compile(ast.Expression(node.value), f, 'eval'), {'dict': dict})
             if c.get('claimed', True):
-                CLAIMS[pid] = dict(text=c['text'], design=c.get('design', 'DESIGN.md section 4, ' + pid), technique=c['technique'],
+                CLAIMS[pid] = dict(text=c['text'] + more, design=c.get('design', 'DESIGN.md section 4, ' + pid), technique=c['technique'],
                                    note=TB + c.get('note', ''), level=c.get('level', 'proof'))
 
 NA_REASONS = {}
